@@ -7,9 +7,9 @@ export CARGO_NET_OFFLINE=true CARGO_TARGET_DIR="$WT/target"
 cd "$WT" || exit 2
 git checkout -q -- src Cargo.toml 2>/dev/null
 mkdir -p tests; cp "_out/demo$I.rs" "tests/demo$I.rs" || { echo "$WT mut$I: no demo"; exit 2; }
-cargo test --offline --release --test "demo$I" >/tmp/cm.$$.clean 2>&1; C=$?
+cargo test --offline --release ${DEMO_FEATURES:-} --test "demo$I" >/tmp/cm.$$.clean 2>&1; C=$?
 git apply "_out/mut$I.diff" || { echo "$WT mut$I: diff does not apply"; exit 2; }
-cargo test --offline --release --test "demo$I" >/tmp/cm.$$.mut 2>&1; M=$?
+cargo test --offline --release ${DEMO_FEATURES:-} --test "demo$I" >/tmp/cm.$$.mut 2>&1; M=$?
 COMPILE_ERR=$(grep -c "^error\[E\|could not compile" /tmp/cm.$$.mut)
 cargo test --offline --release --lib -- --skip test_revoptdens_manybins_fnv_f64 --skip test_ordminhash2_p1 --skip test_ordminhash2_p2 --skip test_ordminhash2_p3 >/tmp/cm.$$.lib 2>&1; L=$?
 LIBSUM=$(grep "^test result" /tmp/cm.$$.lib | tail -1)
